@@ -329,6 +329,24 @@ pub fn value_for(stamp: u64, key_idx: u8, class: u8, cfg: &Cfg) -> Vec<u8> {
     if class == 11 {
         return value_with_embedded_log_record(&base);
     }
+    if class == 12 {
+        // 40000 bytes; as the value of the very first record of a write-ahead log under a one-byte
+        // key, the record's second fragment (behind the first 32 KiB block) begins with value
+        // byte 32746 - and there the value holds a serialized batch `put f = GHOST`: a reader that
+        // takes that fragment for a complete record (type byte Last -> Full) delivers it
+        let mut v: Vec<u8> = (0..40_000usize).map(|i| (i % 251) as u8 | 0x80).collect();
+        v[..base.len()].copy_from_slice(&base);
+        let mut ghost: Vec<u8> = vec![];
+        ghost.extend_from_slice(&700u64.to_le_bytes());
+        ghost.push(1);
+        ghost.push(1);
+        ghost.push(GHOST_KEY.len() as u8);
+        ghost.extend_from_slice(GHOST_KEY);
+        ghost.push(GHOST_VALUE.len() as u8);
+        ghost.extend_from_slice(GHOST_VALUE);
+        v[32746..32746 + ghost.len()].copy_from_slice(&ghost);
+        return v;
+    }
     if class == 13 {
         // 1120 bytes of hexadecimal text that the block compression hardly shrinks
         let mut x: u64 = 0x9E37_79B9_7F4A_7C15 ^ (stamp << 8) ^ key_idx as u64;
